@@ -1613,11 +1613,11 @@ protocol::Manifest Node::store_chunk(const ChunkId& chunk_id,
         dht_.publish_shards(chunk_id, manifest.shards, manifest.threshold, manifest.total_shares, sanitized_ttl);
     }
     announce_chunk(chunk_id, sanitized_ttl);
+    EPH_VERIF_EVENT("store", chunk_id.data(), std::chrono::duration_cast<std::chrono::milliseconds>(manifest.expires_at.time_since_epoch()).count(), true);
     update_swarm_plan(manifest);
     broadcast_manifest(manifest);
     note_local_seed(chunk_id);
 
-    EPH_VERIF_EVENT("store", chunk_id.data(), std::chrono::duration_cast<std::chrono::milliseconds>(manifest.expires_at.time_since_epoch()).count(), true);
     return manifest;
 }
 
@@ -1644,9 +1644,9 @@ bool Node::ingest_manifest(const std::string& manifest_uri) {
         EPH_VERIF_ACCESS("manifest_cache", "Node::cache_insert(manifest)", true);
         manifest_cache_[chunk_id_to_string(manifest.chunk_id)] = manifest;
         dht_.publish_shards(manifest.chunk_id, manifest.shards, manifest.threshold, manifest.total_shares, *ttl);
+        EPH_VERIF_EVENT("ingest", manifest.chunk_id.data(), std::chrono::duration_cast<std::chrono::milliseconds>(manifest.expires_at.time_since_epoch()).count(), true);
     }
     update_swarm_plan(manifest);
-    EPH_VERIF_EVENT("ingest", manifest.chunk_id.data(), std::chrono::duration_cast<std::chrono::milliseconds>(manifest.expires_at.time_since_epoch()).count(), true);
     return true;
 }
 
@@ -1711,13 +1711,13 @@ std::optional<ChunkData> Node::receive_chunk(const std::string& manifest_uri, Ch
                          *ttl,
                          manifest.nonce.bytes,
                          true);
+        EPH_VERIF_EVENT("replica", manifest.chunk_id.data(), std::chrono::duration_cast<std::chrono::milliseconds>(manifest.expires_at.time_since_epoch()).count(), true);
     }
     clear_pending_fetch(chunk_id_to_string(manifest.chunk_id));
     note_local_seed(manifest.chunk_id);
 
     broadcast_manifest(manifest);
 
-    EPH_VERIF_EVENT("replica", manifest.chunk_id.data(), std::chrono::duration_cast<std::chrono::milliseconds>(manifest.expires_at.time_since_epoch()).count(), true);
     return plaintext;
 }
 
@@ -2543,6 +2543,7 @@ void Node::handle_announce(const protocol::AnnouncePayload& payload,
             EPH_VERIF_ACCESS("dht", "Node::handle_announce", true);
             dht_.add_contact(payload.chunk_id, std::move(contact), advertised_ttl);
         }
+        EPH_VERIF_EVENT("announce", manifest.chunk_id.data(), std::chrono::duration_cast<std::chrono::milliseconds>(manifest.expires_at.time_since_epoch()).count(), true);
     }
 
     schedule_assigned_fetch(payload);
@@ -2550,7 +2551,6 @@ void Node::handle_announce(const protocol::AnnouncePayload& payload,
     broadcast_manifest(manifest);
 
     reputation_.record_success(sender);
-    EPH_VERIF_EVENT("announce", manifest.chunk_id.data(), std::chrono::duration_cast<std::chrono::milliseconds>(manifest.expires_at.time_since_epoch()).count(), true);
 }
 
 std::optional<std::array<std::uint8_t, 32>> Node::session_shared_key(const PeerId& peer_id) const {
